@@ -79,7 +79,11 @@ def check_for(dtype, model=False):
         ]
     if dtype in DT and not model:
         alts += [st.builds(lambda k, v, o: _mk(k, [{"ts": v}], o), st.sampled_from(["ge", "le", "gt"]),
-                           st.sampled_from(DATES[:3]), opts)]
+                           st.sampled_from(DATES[:3]), opts),
+                 # collection-valued statistics of a non-JSON type (serialisers must not convert them in place)
+                 st.builds(lambda vs, k, o: _mk(k, [[{"ts": v} for v in vs]], o),
+                           st.lists(st.sampled_from(DATES[:3]), min_size=1, max_size=3, unique=True),
+                           st.sampled_from(["isin", "notin"]), opts)]
     if not model:
         alts += [
             st.builds(lambda k, o: _mk(k, [], o), st.sampled_from(["len_le_3", "len_le_1", "no_dups", "elem_not_none"]), opts),
